@@ -1,6 +1,534 @@
-//! Harness for property C07 (stub: not built yet).
+//! C07 — store wrappers behave as a conforming object store with real CAS.
+//!
+//! Case = a generated call sequence over a small nested key space, run in lock step on
+//!   * the wrapper (MetaStore or EncryptedStore{chunk 1|7|16|64KiB} over InMemory),
+//!   * plain `object_store::memory::InMemory` (the reference the property names),
+//!   * the Lean driver (`drv_c07`: wrapper model || reference model).
+//! Answers are canonicalised (tokens -> first-occurrence ordinals, timestamps -> rank, listings
+//! sorted, payloads -> length:fnv, errors -> kind).
+//!
+//! * correspondence: wrapper vs wrapper model, InMemory vs reference model (line by line);
+//! * oracle (independent of the model): wrapper vs InMemory directly, plus bookkeeping oracles on
+//!   the wrapper alone: update succeeds iff its token is the key's latest, create succeeds iff the
+//!   key is absent, commit tokens never repeat, one (size, time) per token in every answer.
+mod sut;
+use std::collections::{BTreeMap, BTreeSet, HashMap};
+use sut::*;
+use vh_common::serde_json::json;
+use vh_common::*;
+
+const KEYS: [&str; 9] = ["0", "1", "2", "0/1", "0/2", "0/1/3", "1/0", "2/2/2", "3"];
+
+// ------------------------------------------------------------------------------------------
+// generator
+// ------------------------------------------------------------------------------------------
+
+fn gen_case(rng: &mut Rng, big_ok: bool) -> Vec<String> {
+    let (first, c): (String, u64) = if rng.chance(1, 2) {
+        ("reset m".into(), *rng.pick(&[4u64, 16]))
+    } else {
+        let c = if big_ok && rng.chance(1, 12) { 65536 } else { *rng.pick(&[1u64, 7, 16]) };
+        (format!("reset e {c}"), c)
+    };
+    let nkeys = 2 + rng.usize(3);
+    let mut keys: Vec<&str> = KEYS.to_vec();
+    rng.shuffle(&mut keys);
+    keys.truncate(nkeys);
+    let n = 8 + rng.usize(if c > 1000 { 6 } else { 14 });
+    let mut ops = vec![first];
+    let mut ntok = 0u64; // estimate of the number of tokens seen so far
+    let size = |rng: &mut Rng| -> u64 {
+        let cands = [0, 1, c.saturating_sub(1), c, c + 1, 2 * c, 2 * c + 1, 3 * c, rng.below(40)];
+        *rng.pick(&cands)
+    };
+    let tokref = |rng: &mut Rng, ntok: u64| -> String {
+        match rng.below(10) {
+            0 => format!("x{}", rng.below(3)),
+            1 => "none".into(),
+            _ => format!("t{}", rng.below(ntok + 2)),
+        }
+    };
+    for _ in 0..n {
+        let k = *rng.pick(&keys);
+        let k2 = *rng.pick(&keys);
+        let op = match rng.below(100) {
+            0..=24 => {
+                let mode = match rng.below(100) {
+                    0..=44 => "ow".to_string(),
+                    45..=64 => "cr".to_string(),
+                    _ => format!("up:{}", if rng.chance(3, 4) { format!("t{}", ntok.saturating_sub(1 + rng.below(2))) } else { tokref(rng, ntok) }),
+                };
+                ntok += 1;
+                format!("put {k} {mode} {} {}", size(rng), rng.below(50))
+            }
+            25..=30 => {
+                let np = rng.usize(4);
+                let sizes: Vec<String> = (0..np).map(|_| size(rng).min(if c > 1000 { 70000 } else { 60 }).to_string()).collect();
+                ntok += 1;
+                format!("mput {k} {} {}", if sizes.is_empty() { "-".into() } else { sizes.join(",") }, rng.below(50))
+            }
+            31..=54 => {
+                let mut s = format!("get {k}");
+                if rng.chance(1, 4) {
+                    let cond = if rng.chance(1, 6) { "*".to_string() } else { (0..1 + rng.usize(2)).map(|_| tokref(rng, ntok).replace("none", "x9")).collect::<Vec<_>>().join("+") };
+                    s += &format!(" im={cond}");
+                }
+                if rng.chance(1, 5) {
+                    let cond = if rng.chance(1, 6) { "*".to_string() } else { (0..1 + rng.usize(2)).map(|_| tokref(rng, ntok).replace("none", "x9")).collect::<Vec<_>>().join("+") };
+                    s += &format!(" inm={cond}");
+                }
+                if rng.chance(1, 6) {
+                    s += &format!(" ims={}:{}", if rng.chance(2, 3) { k } else { k2 }, rng.range(-1, 1));
+                }
+                if rng.chance(1, 6) {
+                    s += &format!(" ius={}:{}", if rng.chance(2, 3) { k } else { k2 }, rng.range(-1, 1));
+                }
+                if rng.chance(2, 5) {
+                    let a = size(rng);
+                    let b = size(rng);
+                    s += &match rng.below(4) {
+                        0 => format!(" r=o:{a}"),
+                        1 => format!(" r=s:{a}"),
+                        _ => format!(" r=b:{}:{}", a.min(b), if rng.chance(1, 8) { a.min(b) } else { a.max(b) + rng.below(2) }),
+                    };
+                }
+                if rng.chance(1, 5) {
+                    s += " head";
+                }
+                ntok += 1;
+                s
+            }
+            55..=59 => {
+                let nr = rng.usize(4);
+                let rs: Vec<String> = (0..nr)
+                    .map(|_| {
+                        let a = size(rng);
+                        let b = size(rng);
+                        format!("{}:{}", a.min(b), a.max(b) + rng.below(2))
+                    })
+                    .collect();
+                format!("ranges {k} {}", if rs.is_empty() { "-".into() } else { rs.join(",") })
+            }
+            60..=67 => format!("del {k}"),
+            68..=75 => {
+                ntok += 1;
+                format!("copy {k} {k2} {}", if rng.chance(2, 3) { "ow" } else { "cr" })
+            }
+            76..=81 => {
+                let dst = if k == k2 && !rng.chance(1, 6) { *rng.pick(&keys) } else { k2 };
+                ntok += 1;
+                format!("ren {k} {dst} {}", if rng.chance(2, 3) { "ow" } else { "cr" })
+            }
+            82..=88 => {
+                let pre = *rng.pick(&["-", "0", "0/1", "1", "2/2", "3"]);
+                ntok += 2;
+                if rng.chance(1, 3) { format!("list {pre} off={}", rng.pick(&KEYS)) } else { format!("list {pre}") }
+            }
+            89..=93 => {
+                ntok += 1;
+                format!("listd {}", rng.pick(&["-", "0", "0/1", "2", "2/2"]))
+            }
+            _ => "reopen".to_string(),
+        };
+        ops.push(op);
+    }
+    ops
+}
+
+// ------------------------------------------------------------------------------------------
+// running one case
+// ------------------------------------------------------------------------------------------
+
+#[derive(Default, Clone)]
+struct Failure {
+    key: String,
+    what: String,
+    expected: String,
+    observed: String,
+    at: usize,
+}
+
+#[derive(Default)]
+struct CaseOut {
+    wrapper: Vec<String>,
+    reference: Vec<String>,
+    /// ops from this index on are not compared with the reference (states legitimately differ)
+    noref_from: usize,
+    failures: Vec<Failure>,
+    hits: Vec<String>,
+    nontrivial: bool,
+}
+
+fn parse_reset(op: &str) -> Option<Flavor> {
+    let w: Vec<&str> = op.split(' ').collect();
+    match w.as_slice() {
+        ["reset", "m"] | ["reset", "m", _] => Some(Flavor::Meta),
+        ["reset", "e"] => Some(Flavor::Enc(16)),
+        ["reset", "e", c] => Some(Flavor::Enc(c.parse().ok()?)),
+        _ => None,
+    }
+}
+
+/// The call shapes on which the wrapper is known (from reading the code) to answer differently
+/// from InMemory. They are still compared; a difference is reported under this stable key.
+async fn known_shape(op: &str, rf: &Sut) -> Option<(&'static str, bool)> {
+    use object_store::ObjectStoreExt;
+    let w: Vec<&str> = op.split(' ').collect();
+    let head = |k: &str| {
+        let p = key_path(k);
+        let s = rf.store.clone();
+        async move {
+            match p {
+                Some(p) => s.head(&p).await.ok(),
+                None => None,
+            }
+        }
+    };
+    match w.as_slice() {
+        ["del", k] if head(k).await.is_none() => Some(("delete-missing-key", false)),
+        ["put", k, m, ..] if m.starts_with("up:none") && head(k).await.is_some() => Some(("update-without-etag", false)),
+        ["ranges", k, "-"] if head(k).await.is_none() => Some(("get-ranges-empty-on-missing-key", false)),
+        ["ranges", k, rs] => {
+            let m = head(k).await?;
+            let mut beyond = false;
+            for r in rs.split(',') {
+                let (a, b) = r.split_once(':')?;
+                let (a, b): (u64, u64) = (a.parse().ok()?, b.parse().ok()?);
+                if a >= m.size || b <= a {
+                    return None; // both sides reject
+                }
+                beyond |= b > m.size;
+            }
+            beyond.then_some(("get-ranges-end-beyond-length", false))
+        }
+        ["ren", a, b, "ow"] if a == b && head(a).await.is_some() => Some(("self-rename-overwrite", true)),
+        _ => None,
+    }
+}
+
+async fn run_case(ops: &[String]) -> Result<CaseOut, String> {
+    use object_store::ObjectStoreExt;
+    let fl = ops.first().and_then(|o| parse_reset(o)).ok_or("case must start with `reset m|e [chunk]`")?;
+    let mut wr = Sut::new(fl);
+    let mut rf = Sut::new(Flavor::Plain);
+    let mut out = CaseOut { noref_from: usize::MAX, ..Default::default() };
+    out.wrapper.push("ok".into());
+    out.reference.push("ok".into());
+    out.hits.push(format!("flavor:{}", match fl { Flavor::Meta => "meta".to_string(), Flavor::Enc(c) => format!("enc{c}"), Flavor::Plain => "plain".into() }));
+    // bookkeeping oracle on the wrapper alone
+    let mut latest: BTreeMap<String, String> = BTreeMap::new();
+    let mut issued: BTreeSet<String> = BTreeSet::new();
+    let mut views: HashMap<String, (u64, i64)> = HashMap::new();
+    let mut last_ms = 0i64;
+    let (mut commits, mut reads) = (0, 0);
+    for (i, op) in ops.iter().enumerate().skip(1) {
+        let w: Vec<&str> = op.split(' ').collect();
+        if op == "reopen" {
+            wr.reopen();
+            out.wrapper.push("ok".into());
+            out.reference.push("ok".into());
+            out.hits.push("op:reopen".into());
+            continue;
+        }
+        if op == "noref" {
+            out.noref_from = out.noref_from.min(i);
+            out.wrapper.push("ok".into());
+            out.reference.push("ok".into());
+            continue;
+        }
+        if is_mutating(op) {
+            last_ms = wait_past(last_ms);
+        }
+        if let Some((key, diverges)) = known_shape(op, &rf).await {
+            out.hits.push(format!("known-shape:{key}"));
+            out.failures.push(Failure { key: format!("?{key}"), at: i, ..Default::default() });
+            if diverges {
+                out.noref_from = out.noref_from.min(i + 1);
+            }
+        }
+        // expectations of the bookkeeping oracle, taken before the call
+        let mut expect: Option<(&'static str, bool, String)> = None;
+        if let ["put", k, m, ..] = w.as_slice() {
+            if *m == "cr" {
+                expect = Some(("create-iff-absent", !latest.contains_key(*k), format!("key {} {}", k, if latest.contains_key(*k) { "present" } else { "absent" })));
+            } else if let Some(t) = m.strip_prefix("up:") {
+                let has_version = t.ends_with(":v");
+                let t = t.trim_end_matches(":v");
+                let tok = wr.resolve(t).flatten();
+                let ok = !has_version && tok.is_some() && latest.get(*k) == tok.as_ref();
+                expect = Some(("cas-iff-latest", ok, format!("token {t} is{} the token of the latest commit of {k}", if ok { "" } else { " not" })));
+            }
+        }
+        let a = wr.exec(op).await.ok_or_else(|| format!("bad op: {op}"))?;
+        let b = rf.exec(op).await.ok_or_else(|| format!("bad op: {op}"))?;
+        if is_mutating(op) {
+            last_ms = chrono::Utc::now().timestamp_millis();
+        }
+        out.hits.push(format!("op:{}", w[0]));
+        out.hits.push(format!("answer:{}", if a.line.starts_with("ok") { "ok" } else { a.line.as_str() }));
+        if let Some((key, ok, why)) = expect {
+            let got = a.line.starts_with("ok");
+            if got != ok {
+                out.failures.push(Failure { key: key.into(), what: format!("{op}: {why}"), expected: if ok { "success".into() } else { "refusal".into() }, observed: a.line.clone(), at: i });
+            }
+        }
+        // what the wrapper committed, read through a *fresh* instance (does not touch the cache under test)
+        let ok = a.line.starts_with("ok");
+        let committed: Option<&str> = match w.as_slice() {
+            ["put", k, ..] | ["mput", k, ..] if ok => Some(k),
+            ["copy", _, d, _] if ok => Some(d),
+            ["ren", s, d, _] if ok && s != d => Some(d),
+            _ => None,
+        };
+        if let ["del", k] = w.as_slice() && ok {
+            latest.remove(*k);
+        }
+        if let ["ren", s, d, _] = w.as_slice() && ok && s != d {
+            latest.remove(*s);
+        }
+        if let Some(k) = committed {
+            commits += 1;
+            let probe = build_store(fl, wr.backend.clone());
+            match probe.head(&key_path(k).unwrap()).await {
+                Ok(m) => {
+                    let tok = m.e_tag.clone().unwrap_or_default();
+                    if !issued.insert(tok.clone()) {
+                        out.failures.push(Failure { key: "token-repeats".into(), what: format!("{op}: the commit's token was already issued by an earlier commit"), expected: "a fresh token".into(), observed: tok.clone(), at: i });
+                    }
+                    if let Some(pt) = a.line.strip_prefix("ok tok=") && wr.ord(Some(&tok)) != pt {
+                        out.failures.push(Failure { key: "put-result-token".into(), what: format!("{op}: PutResult.e_tag differs from the token a cold head reports"), expected: pt.into(), observed: wr.ord(Some(&tok)), at: i });
+                    }
+                    latest.insert(k.to_string(), tok);
+                }
+                Err(e) => out.failures.push(Failure { key: "committed-unreadable".into(), what: format!("{op}: succeeded but a cold head of {k} fails"), expected: "ok".into(), observed: err_kind(&e), at: i }),
+            }
+        }
+        for m in &a.metas {
+            reads += 1;
+            if let Some(t) = &m.tok {
+                let v = views.entry(t.clone()).or_insert((m.size, m.micros));
+                if *v != (m.size, m.micros) {
+                    out.failures.push(Failure { key: "one-view-per-commit".into(), what: format!("{op}: token reported with a different size/time than before"), expected: format!("{v:?}"), observed: format!("{:?}", (m.size, m.micros)), at: i });
+                }
+                if latest.get(&m.key) != Some(t) {
+                    out.failures.push(Failure { key: "stale-token-served".into(), what: format!("{op}: answer carries a token that is not the key's latest commit"), expected: format!("{:?}", latest.get(&m.key)), observed: t.clone(), at: i });
+                }
+            }
+        }
+        out.wrapper.push(a.line);
+        out.reference.push(b.line);
+    }
+    out.nontrivial = commits > 0 && reads > 0;
+    // wrapper vs reference
+    let wc = rank_times(&out.wrapper);
+    let rc = rank_times(&out.reference);
+    let mut fails = vec![];
+    let mut known_at: HashMap<usize, String> = HashMap::new();
+    for f in out.failures.drain(..) {
+        if let Some(k) = f.key.strip_prefix('?') {
+            known_at.insert(f.at, k.to_string());
+        } else {
+            fails.push(f);
+        }
+    }
+    for i in 1..ops.len().min(wc.len()) {
+        if i >= out.noref_from && !known_at.contains_key(&i) {
+            break;
+        }
+        if wc[i] != rc[i] {
+            let kind = |s: &str| if s.starts_with("ok") { "ok".to_string() } else { s.split(' ').next().unwrap_or("").to_string() };
+            let key = known_at.get(&i).cloned().unwrap_or_else(|| format!("{}:{}-vs-{}", ops[i].split(' ').next().unwrap_or(""), kind(&wc[i]), kind(&rc[i])));
+            fails.push(Failure { key, what: format!("`{}` answers differently on the wrapper and on InMemory", ops[i]), expected: rc[i].clone(), observed: wc[i].clone(), at: i });
+            if !known_at.contains_key(&i) {
+                break; // later lines are consequences
+            }
+        }
+    }
+    fails.sort_by_key(|f| f.at);
+    out.failures = fails;
+    Ok(out)
+}
+
+struct CaseResult {
+    out: Result<CaseOut, String>,
+    panicked: bool,
+    /// model transcript (wrapper column, reference column), time-ranked
+    model: Option<(Vec<String>, Vec<String>)>,
+}
+
+fn eval(rt: &tokio::runtime::Runtime, ops: &[String], model: &mut Option<ModelProc>) -> CaseResult {
+    let r = std::panic::catch_unwind(std::panic::AssertUnwindSafe(|| rt.block_on(run_case(ops))));
+    let (out, panicked) = match r {
+        Ok(o) => (o, false),
+        Err(_) => (Err("panic".into()), true),
+    };
+    let model = model.as_mut().map(|m| {
+        let (mut a, mut b) = (vec![], vec![]);
+        for op in ops {
+            if op == "noref" {
+                a.push("ok".to_string());
+                b.push("ok".to_string());
+                continue;
+            }
+            let ans = m.ask(op);
+            let (x, y) = ans.split_once(" || ").unwrap_or((ans.as_str(), ""));
+            a.push(x.to_string());
+            b.push(y.to_string());
+        }
+        (rank_times(&a), rank_times(&b))
+    });
+    CaseResult { out, panicked, model }
+}
+
+/// (what, model answer, impl answer, index) of the first model/implementation difference
+fn first_disagreement(ops: &[String], r: &CaseResult) -> Option<(String, String, String, usize)> {
+    let (Ok(out), Some((mw, mr))) = (&r.out, &r.model) else { return None };
+    let wc = rank_times(&out.wrapper);
+    let rc = rank_times(&out.reference);
+    for i in 0..ops.len().min(wc.len()) {
+        if mw[i] != wc[i] {
+            return Some((format!("wrapper model vs wrapper on `{}`", ops[i]), mw[i].clone(), wc[i].clone(), i));
+        }
+        if mr[i] != rc[i] {
+            return Some((format!("reference model vs InMemory on `{}`", ops[i]), mr[i].clone(), rc[i].clone(), i));
+        }
+    }
+    None
+}
+
 fn main() {
-    let a = vh_common::Args::parse();
-    let r = vh_common::Report::new("C07", &a, "stub");
-    r.write(&a);
+    let args = Args::parse();
+    let mut rep = Report::new(
+        "C07",
+        &args,
+        "case = generated call sequence (8..22 calls: put ow/cr/update, multipart, get with preconditions/ranges/head, get_ranges, \
+         delete, copy, rename, list/offset/delimiter, reopen) over 2..4 keys of a nested key space, on MetaStore or \
+         EncryptedStore{1,7,16,64KiB} and on InMemory in lock step; distinct = distinct op list; non-trivial = at least one \
+         successful commit and one answer carrying object metadata",
+    );
+    let search = args.focus.is_some();
+    let mut cases: Vec<(String, Vec<String>)> = vec![];
+    if let Some(p) = &args.replay {
+        cases.push(("replay".into(), read_replay(p)));
+    } else {
+        if let Some(dir) = &args.corpus {
+            cases.extend(read_corpus(dir));
+        }
+        let n = args.budget(1600, 60000);
+        for i in 0..n {
+            let mut rng = Rng::for_case(args.seed, i);
+            cases.push((format!("gen{i}"), gen_case(&mut rng, true)));
+        }
+    }
+    let ncorpus = cases.iter().filter(|c| !c.0.starts_with("gen")).count();
+
+    // evaluate in parallel, merge in case order
+    let nthreads = std::thread::available_parallelism().map(|n| n.get()).unwrap_or(4).min(16).min(cases.len().max(1));
+    let results: Vec<CaseResult> = {
+        let mut slots: Vec<Option<CaseResult>> = (0..cases.len()).map(|_| None).collect();
+        let chunks: Vec<Vec<usize>> = (0..nthreads).map(|t| (t..cases.len()).step_by(nthreads).collect()).collect();
+        let outs: Vec<Vec<(usize, CaseResult)>> = std::thread::scope(|s| {
+            let hs: Vec<_> = chunks
+                .iter()
+                .map(|idxs| {
+                    let cases = &cases;
+                    let args = &args;
+                    s.spawn(move || {
+                        let rt = tokio::runtime::Builder::new_current_thread().enable_all().build().unwrap();
+                        let mut model = if search { None } else { ModelProc::from_args(args) };
+                        idxs.iter().map(|&i| (i, eval(&rt, &cases[i].1, &mut model))).collect::<Vec<_>>()
+                    })
+                })
+                .collect();
+            hs.into_iter().map(|h| h.join().expect("worker")).collect()
+        });
+        for v in outs {
+            for (i, r) in v {
+                slots[i] = Some(r);
+            }
+        }
+        slots.into_iter().map(|s| s.unwrap()).collect()
+    };
+
+    let rt = tokio::runtime::Builder::new_current_thread().enable_all().build().unwrap();
+    let mut model = if search { None } else { ModelProc::from_args(&args) };
+    let mut reported: BTreeSet<String> = BTreeSet::new();
+    let mut shrunk_disagreements = 0;
+    for ((name, ops), r) in cases.iter().zip(results.iter()) {
+        if r.panicked {
+            rep.oracle_failure("panic", "the implementation panicked", ops, "no panic", "panic");
+            rep.case(&ops.join("|"), false);
+            continue;
+        }
+        let out = match &r.out {
+            Ok(o) => o,
+            Err(e) => {
+                rep.hit("case_error");
+                rep.notes.push(format!("case {name} could not run: {e}"));
+                continue;
+            }
+        };
+        for h in &out.hits {
+            rep.hit(h);
+        }
+        rep.case(&ops.join("|"), out.nontrivial);
+        if out.nontrivial && rep.samples.len() < 4 {
+            rep.sample(json!({"case": name, "ops": ops, "wrapper": rank_times(&out.wrapper)}));
+        }
+        for f in &out.failures {
+            if !reported.insert(f.key.clone()) {
+                rep.hit(&format!("failure-again:{}", f.key));
+                continue;
+            }
+            // shrink: the same key must still be reported
+            let prefix: Vec<String> = ops[..=f.at.min(ops.len() - 1)].to_vec();
+            let key = f.key.clone();
+            let small = shrink(
+                prefix[1..].to_vec(),
+                |cand| {
+                    let mut c = vec![prefix[0].clone()];
+                    c.extend_from_slice(cand);
+                    let r = eval(&rt, &c, &mut None);
+                    r.out.as_ref().is_ok_and(|o| o.failures.iter().any(|g| g.key == key))
+                },
+                150,
+            );
+            let mut c = vec![prefix[0].clone()];
+            c.extend(small);
+            let r2 = eval(&rt, &c, &mut None);
+            let f2 = r2.out.as_ref().ok().and_then(|o| o.failures.iter().find(|g| g.key == f.key).cloned()).unwrap_or_else(|| f.clone());
+            rep.oracle_failure(&f.key, &f2.what, &c, &f2.expected, &f2.observed);
+        }
+        if r.model.is_some() {
+            rep.model_compared += ops.len() as u64 - 1;
+            if let Some((what, m, im, at)) = first_disagreement(ops, r) {
+                if shrunk_disagreements < 3 && model.is_some() {
+                    shrunk_disagreements += 1;
+                    let prefix: Vec<String> = ops[..=at].to_vec();
+                    let small = shrink(
+                        prefix[1..].to_vec(),
+                        |cand| {
+                            let mut c = vec![prefix[0].clone()];
+                            c.extend_from_slice(cand);
+                            let r = eval(&rt, &c, &mut model);
+                            first_disagreement(&c, &r).is_some()
+                        },
+                        120,
+                    );
+                    let mut c = vec![prefix[0].clone()];
+                    c.extend(small);
+                    let r2 = eval(&rt, &c, &mut model);
+                    match first_disagreement(&c, &r2) {
+                        Some((what, m, im, _)) => rep.disagreement(&what, &c, &m, &im),
+                        None => rep.disagreement(&what, ops, &m, &im),
+                    }
+                } else {
+                    rep.disagreement(&what, ops, &m, &im);
+                }
+            }
+        }
+    }
+    rep.notes.push(format!("{ncorpus} corpus case(s) run first; {} worker threads", nthreads));
+    rep.measured.insert("timestamps".into(), json!("commit times are separated by >= 3 ms of wall clock by the harness; compared by rank only"));
+    rep.write(&args);
 }
